@@ -156,6 +156,18 @@ PROPS["C06"] = dict(
     assumptions=["the end of the requested range is applied+1 and applied only grows (as the server computes it)", "log entries have consecutive indices after the compaction marker"],
 )
 
+PROPS["C07"] = dict(
+    title="Restoring a table stream reproduces exactly the content that was captured",
+    design_ref="DESIGN.md section 7 (C07)",
+    run_files=["Run/C07Run.v"],
+    engines=[dict(cmd=["c07"], corr="Model.Restore.{read_into_table,restored,table_stream} + Model.Framing <-> table.Manager.Restore/readIntoTable, fsm.commandSnapshot, snapshot.snapshotFile/Writer/Reader", timeout=1200)],
+    level_text="Theorems for every in-memory-log-size setting, table content and chunking: the framed (and compressed, for any round-tripping compressor) command stream is read back with the same message boundaries; the proposed batches carry exactly the stream's pairs; the final message's index is the recorded leader index; loading into the fresh shard yields exactly the captured sorted content. Restores run through the real table.Manager on a single-node dragonboat NodeHost with thresholds on every record position, chunk sizes 1 B..1 MiB, a concurrent writer during capture and pre-existing content, compared with the model.",
+    level_note="Trusts: Coq kernel; snappy round trip is a hypothesis of the stream theorem (exercised, not proved); the restore target is a fresh shard (C14); Raft delivers the proposals in order; the backup manifest checksum gate is covered by C18's harness only.",
+    technique="Coq proof (induction over the batching loop with accumulators, sorted-insertion lemma, frame parser with fuel) + differential correspondence check through table.Manager.Restore on an in-memory NodeHost",
+    trusted=["Model/Restore.v, Model/Framing.v hand-written models of storage/table/manager.go readIntoTable/Restore and replication/snapshot"],
+    assumptions=["compressor round trip", "proposals of one restore are applied in proposal order (single proposer, SyncPropose)"],
+)
+
 # Properties not (yet) claimed, each with a reason; kept current as checks are added.
 _PENDING = "check not built yet in this development; will be claimed once its model, theorems and correspondence harness exist"
 NOT_APPLICABLE = [dict(property_id="C%02d" % i, reason=_PENDING) for i in range(1, 20) if "C%02d" % i not in PROPS]
